@@ -68,10 +68,7 @@ contract('parso.normalizer.Normalizer.add_issue',
 # ---- coverage (C13: every error leaf produces an issue on its line): ErrorFinder.visit_leaf on an error leaf that is not an
 # indentation pseudo token files a syntax error for the leaf's own line and returns '' (nothing of it is re-emitted)
 class_fields('ErrorFinder', version='pos')
-class_fields('TokenCollection', always_break_tokens='any')
-contract('parso.python.tokenize._get_token_collection', params={'version_info': 'pos'}, returns='ref:TokenCollection',
-         trusted=True, ensures=['result is not None'], lists=[],
-         note='memoised table of compiled patterns per version; only its non-nullness and an opaque membership test are used')
+# (_get_token_collection: contract in contracts/tokenizer.py)
 contract('parso.python.errors.ErrorFinder.visit_leaf#error_leaf', params={'self': 'ref:ErrorFinder', 'leaf': 'ref:ErrorLeaf'},
          returns='str',
          requires=['leaf is not None', 'leaf.type == "error_leaf"', 'not (leaf.token_type in ("INDENT", "ERROR_DEDENT"))'],
